@@ -200,6 +200,15 @@ pub fn valid_items(seed: u64, big: bool) -> Vec<Item> {
         {
             let mut p = lits(40, seed);
             let mut produced = 40usize;
+            // train the matched-literal probabilities (one literal context with lc = 0): a wrong match byte later on is
+            // invisible while they are all at their initial value
+            // (match byte with top bit 1 -> literal with top bit 1; match byte with top bit 0 -> literal with top bit 0: the two
+            // first-bit probabilities of the matched-literal coder end up at opposite rails)
+            for r in 0..40u32 {
+                let a = if r % 2 == 0 { 0x91u8 } else { 0x11 };
+                p.extend([Sym::L(a), Sym::M(1, 2), Sym::L(a ^ 0x0F)]);
+                produced += 4;
+            }
             let mut k = 0u32;
             let boundary = 4096usize;
             while produced + 200 + 280 < boundary {
@@ -224,9 +233,12 @@ pub fn valid_items(seed: u64, big: bool) -> Vec<Item> {
             }
             p.push(Sym::M(300, 200)); // source [boundary-500, boundary-300), destination [boundary-200, boundary)
             // what follows reads back across the wrap point at short and long distances
-            p.extend([Sym::L(0x77), Sym::M(1, 5), Sym::L(0x78), Sym::M(2, 9), Sym::S, Sym::M(4000, 30), Sym::M(15, 40), Sym::L(0x79), Sym::M(4096, 20)]);
-            v.push(mk("match-ends-at-window-end+size", 3, 0, 2, 4096, p.clone(), false, true));
-            v.push(mk("match-ends-at-window-end+marker", 3, 0, 2, 4096, p, true, false));
+            p.extend([Sym::L(0xF7), Sym::M(1, 5), Sym::L(0x78), Sym::M(2, 9), Sym::S, Sym::M(4000, 30), Sym::M(15, 40), Sym::L(0x79), Sym::M(4096, 20)]);
+            // 108 bytes into the second lap: a copy whose source ends exactly at the window end (distance = cursor after the
+            // copy), so that the matched literal that follows takes its match byte from window index 0
+            p.extend([Sym::M(120, 12), Sym::L(0xF5), Sym::L(0x5A), Sym::M(3, 4), Sym::M(128, 4), Sym::L(0xC3)]);
+            v.push(mk("match-ends-at-window-end+size", 0, 0, 0, 4096, p.clone(), false, true));
+            v.push(mk("match-ends-at-window-end+marker", 0, 0, 0, 4096, p, true, false));
         }
         let rnd: Vec<Sym> = (0..260u32).map(|i| Sym::L((i.wrapping_mul(2654435761) >> 11) as u8)).collect();
         v.push(mk("incompressible-260+size", 3, 0, 2, 4096, rnd.clone(), false, true));
